@@ -246,6 +246,33 @@ def gen_C03(rng, tier):
         p.tag('arith', 'rankdiff%d' % abs(len(sa) - len(sb)),
               'nexp%d' % sum(1 for x, y in zip(sa[::-1], sb[::-1]) if x != y))
         progs.append(p)
+    # special values at specific positions: NaN, +-Inf, -0, subnormal, huge — through every element-wise operation,
+    # comparison and broadcasting arithmetic (IEEE results are defined and the same in both implementations)
+    SPECIAL = [float('nan'), float('inf'), float('-inf'), -0.0, 0.0, 5e-324, -5e-324, 1.7e308, -1.7e308, 1.0, -1.0, 2.5]
+    for i in range(60 if tier == 'quick' else 1200):
+        p = Prog('c03_s%d' % i)
+        shape = rand_shape(rng, 3, 3, 0)
+        n = prod(shape)
+        a = [rng.choice(SPECIAL) if rng.random() < 0.5 else rng.uniform(-2, 2) for _ in range(n)]
+        b = [rng.choice(SPECIAL) if rng.random() < 0.5 else rng.uniform(-2, 2) for _ in range(n)]
+        ta, tb = p.tensor(shape, a), p.tensor(shape, b)
+        # libm on subnormal arguments differs between Go's math package and the C library behind Lean's Float
+        # (e.g. log(5e-324)); the transcendental functions get the special values without the subnormals
+        tl = p.tensor(shape, [1.0 if abs(v) == 5e-324 else v for v in a])
+        for u in unary:
+            r = p.bind('%s %s' % (u, tl)); p.add('obs %s' % r)
+        for e in (0.0, 1.0, 2.0, -1.0, 0.5):
+            r = p.bind('pow %s %s' % (tl, f2b(e))); p.add('obs %s' % r)
+        r = p.bind('scale %s %s' % (ta, f2b(rng.choice([0.0, -1.0, float('inf'), 2.0])))); p.add('obs %s' % r)
+        for c in cmps + arith:
+            r = p.bind('%s %s %s' % (c, ta, tb)); p.add('obs %s' % r)
+        p.add('equals %s %s' % (ta, tb)); p.add('equals %s %s' % (ta, ta))
+        if shape:
+            row = p.tensor(shape[-1:], [rng.choice(SPECIAL) for _ in range(shape[-1])])
+            for o in arith:
+                r = p.bind('%s %s %s' % (o, ta, row)); p.add('obs %s' % r)
+        p.tag('special-values')
+        progs.append(p)
     # incompatible shapes must be errors
     for i in range(40 if tier == 'quick' else 300):
         p = Prog('c03_e%d' % i)
@@ -309,6 +336,20 @@ def gen_C04(rng, tier):
         r = p.bind('transpose %s' % t); p.add('obs %s' % r)
         p.tag('transpose', 'rank%d' % len(shape))
         progs.append(p)
+    # special values at specific positions: 0 * Inf, Inf - Inf, NaN propagate through the sums exactly as IEEE says
+    SPECIAL = [float('nan'), float('inf'), float('-inf'), -0.0, 0.0, 1.7e308, -1.7e308, 1.0]
+    for i in range(30 if tier == 'quick' else 600):
+        p = Prog('c04_s%d' % i)
+        m, n, k = rng.randint(1, 3), rng.randint(1, 4), rng.randint(1, 3)
+        va = [rng.choice(SPECIAL) if rng.random() < 0.3 else rng.uniform(-2, 2) for _ in range(m * n)]
+        vb = [rng.choice(SPECIAL) if rng.random() < 0.3 else rng.uniform(-2, 2) for _ in range(n * k)]
+        ta, tb = p.tensor([m, n], va), p.tensor([n, k], vb)
+        r = p.bind('matmul %s %s' % (ta, tb)); p.add('obs %s' % r)
+        rt = p.bind('transpose %s' % r); p.add('obs %s' % rt)
+        tc = p.tensor([m, n], [rng.choice(SPECIAL) if rng.random() < 0.3 else rng.uniform(-2, 2) for _ in range(m * n)])
+        d = p.bind('dot %s %s' % (ta, tc)); p.add('obs %s' % d)
+        p.tag('special-values')
+        progs.append(p)
     # invalid shapes are errors
     for i in range(30 if tier == 'quick' else 300):
         p = Prog('c04_e%d' % i)
@@ -350,5 +391,23 @@ def gen_C05(rng, tier):
             for r in red:
                 o = p.bind('%salong %s %d' % (r, t, d)); p.add('obs %s' % o)
         p.tag('large')
+        progs.append(p)
+    # special values at specific positions (NaN, +-Inf, -0, huge): the folds have defined IEEE results
+    SPECIAL = [float('nan'), float('inf'), float('-inf'), -0.0, 0.0, 1.7e308, -1.7e308, 1.0, -2.5]
+    for i in range(40 if tier == 'quick' else 800):
+        p = Prog('c05_s%d' % i)
+        shape = rand_shape(rng, 3, 3, 0)
+        n = prod(shape)
+        k = rng.choice(['one', 'one', 'many'])
+        vals = [rng.uniform(-3, 3) for _ in range(n)]
+        for _ in range(1 if k == 'one' else rng.randint(2, max(2, n))):
+            vals[rng.randrange(n)] = rng.choice(SPECIAL)
+        t = p.tensor(shape, vals)
+        for r in red:
+            p.add('%s %s' % (r, t))
+        for d in range(len(shape)):
+            for r in red:
+                o = p.bind('%salong %s %d' % (r, t, d)); p.add('obs %s' % o)
+        p.tag('special-values')
         progs.append(p)
     return progs
